@@ -65,6 +65,28 @@ def jweOps : List (String × (Json → Json)) := [
             | _ => ptResult none)
          else ptResult none)
     | _, _ => ptResult none),
+  -- jose_jwe_enc_io = jose_jwe_enc_jwk then jose_jwe_enc_cek_io: the plaintext is what was fed
+  ("jwe.enc_io", fun a =>
+    match a.get? "jwe", a.get? "jwk" with
+    | some jwe, some jwk => okWith "jwe" (Jwe.encAll realPrims jwe (a.get? "rcp") jwk (feedsOfJson a).flatten (tapeOf a))
+    | _, _ => .obj [("ok", .bool false)]),
+  -- jose_jwe_dec_io = jose_jwe_dec_jwk then jose_jwe_dec_cek_io
+  ("jwe.dec_io", fun a =>
+    match a.get? "jwe", a.get? "jwk" with
+    | some jwe, some jwk =>
+      (match Jwe.decJwk realPrims jwe (a.get? "rcp") jwk (tapeOf a) with
+       | none => ptResult none
+       | some cek =>
+         (match Jwe.decCekIo realPrims jwe cek .sink with
+          | none => ptResult none
+          | some sg =>
+            let (s, ok) := IO.run sg (feedsOfJson a)
+            if ok then
+              (match IO.leaves s with
+               | [.sink d] => ptResult (some d)
+               | _ => ptResult none)
+            else ptResult none))
+    | _, _ => ptResult none),
   ("jwk.exc", fun a =>
     match a.get? "prv", a.get? "pub" with
     | some prv, some pub => optJson (Exc.exc realPrims prv pub)
